@@ -132,7 +132,24 @@ def observe(f, r):
     if o['has_d2']: o['d2'] = f.deriv2(r)
     return o
 
+def gen_origin_case(rng):
+    """the separation r = 0 (the first row of a table that starts at the origin) for potentials that are finite there, with at least
+    one component that has no analytic derivative: the numerical fallback straddles the origin"""
+    def leaf(kind):
+        form = rng.choice(['bornmayer', 'polynomial', 'polynomial', 'constant'])
+        if form == 'bornmayer': params = [fc.grid(rng, 1, 5), fc.grid(rng, 0.5, 2)]
+        elif form == 'constant': params = [fc.grid(rng, 0.5, 3)]
+        else: params = [fc.grid(rng, 0.5, 2), fc.grid(rng, 0.5, 1.5), fc.grid(rng, 0, 0.5)]
+        return {'op': 'leaf', 'form': form, 'params': params, 'kind': kind}
+    t = leaf(rng.choice(['plain', 'd1']))
+    if t['form'] == 'constant': t = leaf('plain'); t['form'] = 'bornmayer'; t['params'] = [fc.grid(rng, 1, 5), fc.grid(rng, 0.5, 2)]
+    for _ in range(rng.choice([0, 1, 1, 2])):
+        o = leaf(rng.choice(['full', 'plain', 'd1']))
+        t = {'op': rng.choice(['plus', 'product']), 'a': t, 'b': o} if rng.random() < 0.5 else {'op': rng.choice(['plus', 'product']), 'a': o, 'b': t}
+    return {'tree': t, 'r': 0.0, 'route': 'api'}
+
 def gen_case(rng, depth):
+    if rng.random() < 0.1: return gen_origin_case(rng)
     t = gen_tree(rng, depth)
     r = fc.grid(rng, 1.0, 4.0)
     if rng.random() < 0.15:
@@ -260,6 +277,18 @@ def _depth(t):
     return 1 + max(_depth(t[k]) for k in ('a', 'b') if k in t and isinstance(t[k], dict))
 
 # ------------------------------------------------------------------ oracle
+def abs_eval(t, r):
+    """the expression evaluated with |.| at every leaf and magnitudes added / multiplied: the size of the terms that may cancel"""
+    try:
+        if t['op'] == 'leaf': return abs(py_leaf(t)(r))
+        if t['op'] == 'trans': return abs_eval(t['a'], r + t['X'])
+        if t['op'] == 'pow': return abs(py_build(t)(r))
+        a, b = abs_eval(t['a'], r), abs_eval(t['b'], r)
+        v = a + b if t['op'] == 'plus' else a * b
+        return v if math.isfinite(v) else 0.0
+    except Exception:
+        return 0.0
+
 def richardson(f, x, h=1e-3):
     """O(h^4) central difference with one Richardson step"""
     d1 = (f(x + h) - f(x - h)) / (2 * h)
@@ -302,7 +331,12 @@ def oracle(case):
         # analytic derivatives: limited by the Richardson estimate (~1e-7); nested central differences of the
         # numerical fallback (h = 1e-6) are themselves only good to ~1e-4 of the function's size
         lim = (2e-2 if nm == 'deriv2' else 1e-4) if uses_fallback(case) else 2e-6
-        if abs(num - got) > lim * scale:
+        # cancellation: when the terms of the expression are much larger than its value (a product of a decaying and a growing
+        # exponential, say) the rounding noise of the nested differences (eps/h^2 = 1e-4 for deriv2, eps/h = 1e-10 for deriv) and
+        # of the Richardson estimate is relative to the size M of those terms, not to the size of the result
+        M = abs_eval(case['tree'], r) if 'tree' in case else 0.0
+        k = ((1e-3 if nm == 'deriv2' else 1e-8) if uses_fallback(case) else 1e-9)
+        if abs(num - got) > max(lim * scale, k * M):
             fails.append('%s(%r) = %r but the numerical derivative of the %s is %r' % (nm, r, got, 'energy' if nm == 'deriv' else 'first derivative', num))
     return fails
 
